@@ -110,6 +110,18 @@ class C19:
             with harness.alarm(30), contextlib.redirect_stdout(buf):
                 if kind == "script":
                     info = self.CC.run_script_with_cache(target, ex, glb=glb, loc=None, mode="exec")
+                elif kind == "import":
+                    # the import hook's loader: same entries, its own call site (XonshImportHook.get_code)
+                    from xonsh.imphooks import XonshImportHook
+
+                    hook = XonshImportHook(ex)
+                    if hook.find_spec("s", [os.path.dirname(target)]) is None:
+                        raise ImportError("not found")
+                    info = None
+                    try:
+                        exec(hook.get_code("s"), glb)
+                    except Exception as e:  # noqa  (what `import s` would raise)
+                        info = (type(e), e, None)
                 else:
                     info = self.CC.run_code_with_cache(target, "<string>", ex, glb=glb, loc=None, mode=mode)
             if info and info[0] is not None:
@@ -191,7 +203,11 @@ class C19:
                 os.utime(script, ns=(int(t * 1_000_000_000), int(t * 1_000_000_000)))
                 kinds.append("t")
                 continue
-            if r < 0.75:
+            if r < 0.52:
+                what, target, mode = "import", script, "exec"
+                rec.count("module_imports_through_the_hook")
+                kinds.append("I")
+            elif r < 0.75:
                 what, target, mode = "script", script, "exec"
                 if rng.random() < 0.5:
                     os.chdir(os.path.dirname(script))
@@ -214,7 +230,7 @@ class C19:
                     rec.violation("CODE-CACHE/entry-shared-between-compile-modes", dict(case, at_step=step), {"ops": "".join(kinds), "cached": got, "uncached": exp, "mode": mode})
                     return
                 what2 = "stdout" if got[0] != exp[0] else "exception" if got[1] != exp[1] else "namespace"
-                stale = "/stale-after-" + kinds[-2][:1] if len(kinds) > 1 and kinds[-2][:1] in "wet" else ""
+                stale = "/stale-after-" + kinds[-2][:1] if len(kinds) > 1 and kinds[-2][:1] in ("w", "e", "t") else ""
                 rec.violation(f"CACHED-RUN-DIFFERS/{what}/{what2}{stale}", dict(case, at_step=step), {"ops": "".join(kinds), "cached": got, "uncached": exp})
                 return
         rec.case(nontrivial=("".join(kinds), tuple(sorted(sw.items()))))
